@@ -108,6 +108,7 @@ func genAllocConc(c *ctx) {
 				}
 			}
 			s.exec(c, fmt.Sprintf("arace %s %d %d", hint, 2+c.rng.Intn(7), 400))
+			s.exec(c, fmt.Sprintf("afrace %d %d", 2+c.rng.Intn(5), 400))
 		}
 		for round := 0; round < 4 && c.count < c.n; round++ {
 			if c.rng.Intn(2) == 0 || len(held) == 0 {
@@ -251,12 +252,34 @@ func genRangeConc(c *ctx) {
 					known = append(known, macs[i])
 				}
 			}
+			// a crash point right after the burst: every client that was answered must be restored (C03)
+			if c.rng.Intn(2) == 0 && len(known) > 0 {
+				var ask []string
+				seen := map[string]bool{}
+				for _, m := range known {
+					if !seen[hx(m)] && len(ask) < 10 {
+						seen[hx(m)] = true
+						ask = append(ask, hx(m))
+					}
+				}
+				if !strings.HasPrefix(s.exec(c, "rrestart "+strings.Join(ask, " ")), "ok") {
+					break
+				}
+			}
 		}
 	}
 }
 
 func genPrefixConc(c *ctx) {
 	for c.count < c.n {
+		if c.rng.Intn(4) == 0 {
+			// retransmissions in flight: a large pool, many new clients, each sending its first SOLICIT k times at once
+			s := &prefixState{}
+			if s.exec(c, fmt.Sprintf("psetup %s %s", hx([]byte("2001:db8:100::/48")), hx([]byte("64")))) == "ok" {
+				s.exec(c, fmt.Sprintf("prace %d %d", 2+c.rng.Intn(6), 300))
+			}
+			continue
+		}
 		s := &prefixState{}
 		cfg := []pool6cfg{{62, 64}, {61, 64}, {60, 64}, {125, 128}}[c.rng.Intn(4)]
 		base := new(big.Int).SetBytes(net.ParseIP("2001:db8:0:40::").To16())
